@@ -56,6 +56,7 @@ type Frame struct {
 	loopHeader *ssa.BasicBlock // LoopStep: suspend this frame when control arrives here
 	contIP  int
 	contPhase int
+	contData interface{} // iteration state of an intrinsic that calls back repeatedly (immutable, replaced per step)
 }
 
 type Goroutine struct {
